@@ -35,6 +35,8 @@ def main():
             print(n, results[n])
             continue
         t0 = time.time()
+        ev = os.path.join(VERIF, "evidence", pid + ".json")
+        saved = open(ev).read() if os.path.exists(ev) else None
         try:
             r = sh([os.path.join(VERIF, "bin", "check"), pid, "--tier", "quick"], cwd=VERIF, timeout=3600)
             out = r.stdout.decode("utf-8", "replace")
@@ -44,6 +46,8 @@ def main():
                           "lines": viol[:3], "detail": [l for l in out.split("\n") if l.startswith("  violation") or l.startswith("  broken")][:3]}
         finally:
             sh(["git", "-C", REPO, "checkout", "--", "."])
+            if saved is not None:      # evidence must describe runs on the unchanged tree only
+                open(ev, "w").write(saved)
         print(n, json.dumps(results[n]))
         sys.stdout.flush()
     json.dump(results, open(os.path.join(VERIF, "seeded", "RESULTS.json"), "w"), indent=1)
